@@ -51,7 +51,11 @@ impl<'a, const PT: u8, const MIN: usize> Custom<'a, PT, MIN> {
     }
 
     pub fn builder(body: &'a [u8]) -> CustomBuilder<'a, PT, MIN> {
-        CustomBuilder { padding: 0, body }
+        CustomBuilder {
+            padding: 0,
+            some0: false,
+            body,
+        }
     }
 }
 
@@ -60,12 +64,20 @@ impl<'a, const PT: u8, const MIN: usize> Custom<'a, PT, MIN> {
 #[must_use = "The builder must be built to be used"]
 pub struct CustomBuilder<'a, const PT: u8, const MIN: usize> {
     padding: u8,
+    /// `(pad_style some0)`: `get_padding()` is `Some(0)` rather than `None` for padding 0
+    some0: bool,
     body: &'a [u8],
 }
 
 impl<'a, const PT: u8, const MIN: usize> CustomBuilder<'a, PT, MIN> {
     pub fn padding(mut self, padding: u8) -> Self {
         self.padding = padding;
+        self
+    }
+
+    /// Selects the `some0` style of `get_padding()`.
+    pub fn pad_style_some0(mut self) -> Self {
+        self.some0 = true;
         self
     }
 
@@ -103,7 +115,7 @@ impl<'a, const PT: u8, const MIN: usize> RtcpPacketWriter for CustomBuilder<'a, 
     }
 
     fn get_padding(&self) -> Option<u8> {
-        if self.padding == 0 {
+        if self.padding == 0 && !self.some0 {
             return None;
         }
 
